@@ -28,6 +28,13 @@ _BIN = {
 }
 
 
+class StrAcc:
+    """acc + p1 + p2 ... inside one generic round: a string accumulator growing at its end"""
+
+    def __init__(self, acc, parts):
+        self.acc, self.parts = acc, parts
+
+
 def check_usable(*vs):
     for v in vs:
         if isinstance(v, Poison):
@@ -54,6 +61,9 @@ def binop(op, l, r):
                 j = z3.Int(f"jrep({z3.simplify(n.t)})")
                 return [Seg(("rep", repr(lst), str(z3.simplify(n.t))), n, j, list(lst))]
         raise Unsupported(f"symbolic integer operation {type(op).__name__}")
+    if isinstance(op, ast.Add) and isinstance(r, STRLIKE) and (isinstance(l, StrAcc) or (isinstance(l, Opaque) and isinstance(l.tag, tuple) and l.tag[:1] == ("acc",))):
+        # text appended to the loop-carried accumulator of a summarised loop: acc + piece(j)
+        return StrAcc(l.acc, l.parts + [r]) if isinstance(l, StrAcc) else StrAcc(l, [r])
     if is_symstr(l) or is_symstr(r):
         if isinstance(op, ast.Add) and isinstance(l, STRLIKE) and isinstance(r, STRLIKE):
             return tcat(l, r)
@@ -582,8 +592,14 @@ def _subst(v, jvar, term, memo):
     if isinstance(v, SBool):
         return mk_bool(z3.substitute(v.t, (jvar, term)))
     if isinstance(v, Opaque):
+        props = dict(v.props)
+        sem = props.get("sem")
+        if isinstance(sem, tuple):
+            # the contract payload of an abstract node (e.g. the source node it stands for)
+            # mentions the round variable too
+            props["sem"] = tuple(subst_j(x, jvar, term, memo) if isinstance(x, (Opaque, tuple, list, SInt, ast.AST)) else x for x in sem)
         o = Opaque(_subst_tag(v.tag, jvar, term), v.cls, cands=v.cands, factory=v.factory,
-                   truthy=v.truthy, **v.props)
+                   truthy=v.truthy, **props)
         o.fields = {k: subst_j(x, jvar, term, memo) for k, x in v.fields.items()}
         return o
     if isinstance(v, Hole):
@@ -773,6 +789,12 @@ def list_getitem(lst, idx):
             return work
         if idx.start is None and idx.stop is None and idx.step is None:
             return list(lst)
+        if idx.start is None and idx.stop is None and idx.step == -1:
+            # lst[::-1]: the reversed list (a new list, like list(reversed(lst)))
+            out = []
+            for x in reversed(lst):
+                out.append(Seg(x.tag, x.length, x.jvar, list(reversed(x.items)), not x.rev, x.cls_note) if isinstance(x, Seg) else x)
+            return out
         raise Unsupported(f"slice {idx} of a list with segments")
     if isinstance(idx, SInt):
         # the position must provably fall into one single-item run: then it denotes that
@@ -830,6 +852,11 @@ def str_method(obj, name, args, kwargs):
         (lst,) = args
         if isinstance(lst, (list, tuple)):
             return tjoin(obj, list(lst))
+        if isinstance(lst, Opaque) and isinstance(lst.tag, tuple) and len(lst.tag) == 3 and lst.tag[0] == "split" and isinstance(obj, str):
+            # sep2.join(s.split(sep)) == s.replace(sep, sep2)
+            src = lst.props.get("source")
+            if src is not None:
+                return t_replace(src, lst.tag[2], obj)
         raise Unsupported("join over non-list")
     if name == "replace":
         a, b = args
@@ -856,7 +883,7 @@ def str_method(obj, name, args, kwargs):
         ctx().assume(n >= 1)
         # the pieces of a dotted name split at "." are identifiers
         pk = "ident" if (obj.kind == "ident" and args[0] == ".") else "str"
-        return Opaque(("split", obj.tag, args[0]), list, len=lambda o: SInt(n), truthy=True,
+        return Opaque(("split", obj.tag, args[0]), list, len=lambda o: SInt(n), truthy=True, source=obj,
                       unpack=lambda o, k: [Hole((obj.tag, "piece", i), pk) for i in range(k)],
                       getitem=lambda o, i: Hole((obj.tag, "piece", i), pk, nonempty=obj.nonempty) if isinstance(i, int) and i >= 0
                       else (_ for _ in ()).throw(Unsupported("index into split() result")))
